@@ -295,8 +295,12 @@ fn body(ctx: &mut Ctx) {
             if !n.is_zero() {
                 let x = call(ctx, || i.sqrt());
                 expect_panic(ctx, "BigInt sqrt of a negative", &args, x);
-                let x = call(ctx, || i.nth_root(4));
-                expect_panic(ctx, "BigInt nth_root(4) of a negative", &args, x);
+                for n in [2u32, 4, 6, 64, 100, 1000, u32::MAX - 1] {
+                    let x = call(ctx, || i.nth_root(n));
+                    expect_panic(ctx, "BigInt nth_root(even n) of a negative", &args, x);
+                    let x = call(ctx, || Roots::nth_root(&i, n));
+                    expect_panic(ctx, "Roots::nth_root(even n) of a negative BigInt", &args, x);
+                }
             }
             let x = call(ctx, || i.nth_root(0));
             expect_panic(ctx, "BigInt nth_root(0)", &args, x);
